@@ -1613,6 +1613,8 @@ fn parse_operators(input: Span) -> IResult<Span, Vec<Operator>> {
         )
         .map(|unknown_ids| {
             let is_agg = unknown_ids.len() > 1;
+            let errors_before = input.extra.get_error_count();
+            let first_id = unknown_ids[0];
             for i in unknown_ids {
                 if is_agg {
                     if VALID_AGGREGATES.contains(&i) {
@@ -1651,6 +1653,17 @@ fn parse_operators(input: Span) -> IResult<Span, Vec<Operator>> {
                     builder = builder.with_resolution(format!("{} is an inline operator, but only aggregate operators (count, average, etc.) are valid here", i));
                 }
                 builder.send_report();
+            }
+
+            // every name is a valid operator, yet no operator parser accepted the text: the
+            // stage must not be dropped silently
+            if input.extra.get_error_count() == errors_before {
+                input
+                    .extra
+                    .report_error_for("unable to parse the arguments of this operator")
+                    .with_code_range(first_id.to_range(), "")
+                    .with_resolution("check the operator's syntax; the rest of this stage was not understood")
+                    .send_report();
             }
 
             Operator::Error
